@@ -191,7 +191,7 @@ func arrayMembers(tier string, cfg gen.Config) []member {
 	var out []member
 	sets := [][]string{nil, {"minItems"}, {"maxItems"}, {"minItems", "maxItems"}}
 	elems := []*fam.Spec{{Kind: "string"}, {Kind: "integer"}}
-	poss := []string{"required", "optional", "nullable-optional"}
+	poss := []string{"required", "optional", "nullable-optional", "def-required", "def-optional"}
 	add := func(sp *fam.Spec, pos string) {
 		out = append(out, member{name: "array " + pos + " " + sp.String(), cfg: cfg, root: place(sp, pos)})
 	}
